@@ -89,6 +89,8 @@ pub struct World {
     /// tasks whose continuation is expected to reach the database next, in order
     expected: std::collections::VecDeque<u64>,
     pub harness_error: Option<String>,
+    /// a released closure that did not end
+    pub hung_task: Option<u64>,
     pub key: Key,
     pub incarnation: u32,
 }
@@ -128,6 +130,7 @@ impl World {
             cont_gate: BTreeMap::new(),
             expected: Default::default(),
             harness_error: None,
+            hung_task: None,
             key,
             incarnation: 0,
         }
@@ -258,7 +261,9 @@ impl World {
     /// not fired before) is parked at its database call.
     pub async fn release_task(&mut self, id: u64) {
         let Some(rec) = blocking::release_and_wait(id) else {
-            self.harness_error = Some(format!("task {id} did not end after release"));
+            // released, and 15 s of real time later still computing: for the sizes used here
+            // (<= 5 statements) that is a computation that never ends
+            self.hung_task = Some(id);
             return;
         };
         if rec.panicked {
@@ -324,8 +329,12 @@ impl World {
         for g in mongodb::sim::pending() {
             mongodb::sim::release(g.id, Outcome::FaultBefore, "teardown");
         }
+        if self.hung_task.is_some() {
+            return;
+        }
         if !blocking::release_all_and_wait() {
-            self.harness_error = Some("blocking closures did not end at teardown".into());
+            self.hung_task = Some(0);
+            return;
         }
         for _ in 0..5 {
             pump().await;
